@@ -860,7 +860,17 @@ func (m *machine) apply(op *Op) (res result) {
 			rm[k] = true
 		}
 		calls := 0
-		real = func() { mm.RemoveIf(func(k string, _ pcommon.Value) bool { calls++; return rm[k] }) }
+		// op.Bo: filter and rewrite in one pass — the callback overwrites the value of every entry it keeps
+		// (the value it is given IS the stored entry, as with every other accessor of the map)
+		real = func() {
+			mm.RemoveIf(func(k string, v pcommon.Value) bool {
+				calls++
+				if !rm[k] && op.Bo {
+					v.SetInt(op.I)
+				}
+				return rm[k]
+			})
+		}
 		model = func() bool {
 			list := asList(ref.get())
 			if calls != len(list) {
@@ -870,6 +880,9 @@ func (m *machine) apply(op *Op) (res result) {
 			out := []any{}
 			for _, e := range list {
 				if !rm[e.(pview.KV).Key] {
+					if op.Bo {
+						e = pview.KV{Key: e.(pview.KV).Key, Val: valueNode("Int", "Int", op.I)}
+					}
 					out = append(out, e)
 				}
 			}
@@ -953,6 +966,14 @@ func (m *machine) apply(op *Op) (res result) {
 				pokeBytes(b)
 			}
 			val = valueNode("Bytes", "Bytes", pview.Of(append([]byte{}, op.By...)))
+		case "BytesAppend":
+			// in-place growth through the handle Value.Bytes() returns (only for a value that holds bytes now)
+			if v.Type() != pcommon.ValueTypeBytes {
+				return result{skipped: true}
+			}
+			old := v.Bytes().AsRaw()
+			real = func() { v.Bytes().Append(op.By...) }
+			val = valueNode("Bytes", "Bytes", pview.Of(append(append([]byte{}, old...), op.By...)))
 		case "FromRawBytes":
 			real = func() {
 				b := append([]byte{}, op.By...)
